@@ -134,6 +134,7 @@ def tree_docs(ctx):
     for d in sims:
         docs.append((render_tokens(d['t']), True, {}, 'sim'))
     ctx.coverage['generator'] = per
+    docs.sort(key=lambda d: (d[3], d[0]))     # TLC prints in worker order: make the case list deterministic
     return docs
 
 
@@ -155,24 +156,28 @@ def tree_cases(ctx, docs):
         seen.add(k)
         cases.append(mk(src, opts, frag, 0, origin, pred.get(opts & (KET | KWS | KDOC)) if opts & 3 == 0 else None))
 
-    budget_deep = 40000
-    ndeep = sum(1 for d in docs if d[3] == 'deep')
+    budget = dict(deep=40000, sim=30000)
+    count = {}
+    for d in docs:
+        count[d[3]] = count.get(d[3], 0) + 1
     for i, (src, frag, pred, name) in enumerate(docs):
-        if name == 'deep' and ndeep > budget_deep and ctx.rnd.random() > budget_deep / ndeep:
+        if not quick and name in budget and count[name] > budget[name] and ctx.rnd.random() > budget[name] / count[name]:
             continue
-        if quick or name in ('deep', 'sim'):
-            # defaults + one seeded member of the pairwise-covering family (+ the document reading of a fragment)
-            o2 = PAIRWISE8[1 + (i + ctx.seed) % 7]
-            add(src, 0, frag, 'gen:' + name, pred)
-            add(src, o2, frag, 'gen:' + name, pred)
-            if frag and (i + ctx.seed) % 3 == 0:
+        o2 = PAIRWISE8[1 + (i + ctx.seed) % 7]
+        o3 = PAIRWISE8[1 + (i + ctx.seed + 3) % 7]
+        # defaults + seeded members of the pairwise-covering family (+ the document reading of a fragment)
+        add(src, 0, frag, 'gen:' + name, pred)
+        if quick:
+            if (i + ctx.seed) % 2 == 0:
+                add(src, o2, frag, 'gen:' + name, pred)
+            if frag and (i + ctx.seed) % 4 == 1:
                 add(src, 0, False, 'gen:' + name + ':asdoc', pred)
         else:
-            for o in PAIRWISE8:
-                add(src, o, frag, 'gen:' + name, pred)
-            if frag:
-                add(src, 0, False, 'gen:' + name + ':asdoc', pred)
-                add(src, PAIRWISE8[1 + i % 7], False, 'gen:' + name + ':asdoc', pred)
+            add(src, o2, frag, 'gen:' + name, pred)
+            if name in ('wide', 'doc'):
+                add(src, o3, frag, 'gen:' + name, pred)
+            if frag and name == 'wide':
+                add(src, PAIRWISE8[i % 8], False, 'gen:' + name + ':asdoc', pred)
     return cases
 
 
@@ -242,7 +247,7 @@ def attr_values(ctx):
     vals = [bytes(json.loads(m.group(1))) for m in VAL_RE.finditer(r['out'])]
     if len(vals) != r['distinct']:
         raise vlib.Infra('HtmlAttr: %d values printed for %d states' % (len(vals), r['distinct']))
-    rs = vlib.tlc(ctx, 'HtmlAttr', 'HtmlAttr_sim.cfg', workers=1, simulate='num=%d' % (300 if quick else 3000), depth=5,
+    rs = vlib.tlc(ctx, 'HtmlAttr', 'HtmlAttr_sim.cfg', workers=1, simulate='num=%d' % (40 if quick else 800), depth=5,
                   seed=ctx.seed, timeout=1200)
     if rs['errors'] or rs['invariant_violations']:
         raise vlib.Infra('attribute design model fails on a simulated walk:\n' + rs['out'][-3000:])
@@ -256,14 +261,14 @@ def attr_values(ctx):
         if v not in seen:
             seen.add(v)
             extra.append(v)
-    return vals + vlib.sample(extra, 1200 if quick else 12000, ctx.rnd)
+    return vals + vlib.sample(extra, 900 if quick else 4000, ctx.rnd)
 
 
 def attr_cases(ctx, vals):
     """every value in every conforming source quoting on: an attribute that is only reference-decoded (title),
     one that is trimmed (class), a URL attribute, an attribute of an unknown element; and as text / RCDATA"""
     out = []
-    optsets = [0, 32] if ctx.quick() else [0, 32, PAIRWISE8[1], PAIRWISE8[2], PAIRWISE8[6]]
+    optsets = [0, 32]
     for i, v in enumerate(vals):
         quotings = []
         if b'"' not in v:
@@ -280,7 +285,7 @@ def attr_cases(ctx, vals):
             docs.append(b'<p>' + v + b'</p>')
         docs.append(b'<textarea>' + v + b'</textarea>')
         for j, d in enumerate(docs):
-            for o in (optsets if not ctx.quick() else [optsets[(i + j) % 2]]):
+            for o in ([optsets[(i + j) % 2]] if ctx.quick() or j % 2 else optsets):
                 out.append(mk(d, o, True, 0, origin='attr'))
         if b'<' not in v:
             out.append(mk(DOCTYPE + b'<title>' + v + b'</title>', 0, False, 0, origin='attr'))
@@ -350,27 +355,27 @@ def run(ctx):
     ctx.coverage['design_drift'] = sum(1 for c, m in zip(cases, side) if c.get('pred') is not None and c['pred'].decode('latin1') != m)
     ctx.coverage['design_drift_samples'] = drift
 
-    # every rejected call is re-run alone (fresh process) and re-validated before it counts
+    # every rejected call is re-run in a fresh process and re-validated before it counts
     if rejects:
-        why = {}
-        for i, w in rejects:
-            why.setdefault(i, []).append(w)
-        bad = sorted(why)
-        if len(bad) > 300:
-            vlib.log('%d rejected lines; re-running the first 300' % len(bad))
-        reproduced = 0
-        for i in bad[:300]:
-            c = cases[i]
-            l2, s2, a2, r2 = validate(ctx, exe, [c], 'rerun%d' % i)
-            if not r2:
-                raise vlib.Infra('rejection of %r did not reproduce in isolation' % show(c))
-            reproduced += 1
+        bad = sorted(set(i for i, _ in rejects))
+        if len(bad) > 400:
+            vlib.log('%d rejected lines; re-running the first 400' % len(bad))
+        sub = [cases[i] for i in bad[:400]]
+        l2, s2, a2, r2 = validate(ctx, exe, sub, 'rerun')
+        why2 = {}
+        for k, w in r2:
+            why2.setdefault(k, set()).add(w)
+        if len(why2) != len(sub):
+            lost = [show(sub[k]) for k in range(len(sub)) if k not in why2]
+            raise vlib.Infra('rejections did not reproduce in a fresh process: %r' % lost[:5])
+        for k in sorted(why2):
+            c = sub[k]
             desc = '%s [%s%s%s] -> %s : clause %s' % (json.dumps(show(c)), optstr(c['opts']), ' fragment' if c['frag'] else '',
-                                                      ' tmpl=%d' % c['tmpl'] if c['tmpl'] else '', json.dumps(s2[0]),
-                                                      '/'.join(sorted(set(w for _, w in r2))))
-            ctx.report(ident(c), desc, replay_obj=dict(origin=c['origin'], out=s2[0]))
+                                                      ' tmpl=%d' % c['tmpl'] if c['tmpl'] else '', json.dumps(s2[k]),
+                                                      '/'.join(sorted(why2[k])))
+            ctx.report(ident(c), desc, replay_obj=dict(origin=c['origin'], out=s2[k]))
         ctx.coverage['rejections'] = len(bad)
-        ctx.coverage['rejections_reproduced'] = reproduced
+        ctx.coverage['rejections_reproduced'] = len(why2)
 
     samples = []
     for j in (0, n_tree // 2, n_tree - 1, n_tree + 3, len(cases) - len(pinned_cases()) - 1):
